@@ -1,5 +1,6 @@
 import SnaxVerif.Drv.Basic
 import SnaxVerif.Model.Stream
+import SnaxVerif.Model.StreamLayout
 namespace SnaxVerif.Drv.C02
 open Lean SnaxVerif SnaxVerif.Drv SnaxVerif.Stream SnaxVerif.Stride
 
@@ -84,6 +85,10 @@ def hwH : Handler := fun j => do
 /-- one operand of `c02.run` -/
 structure OpArgs where
   L : Option AExpr
+  tsl : Option Tsl.SLayout      -- the operand's memref type carries a static #tsl.tsl layout: L is built by the model
+  dynTsl : Option Tsl.Layout    -- … a #tsl.tsl layout with dynamic entries (`?`)
+  dynStrided : String           -- "" | "stride" (strided<> with a dynamic stride: xDSL's get_affine_map refuses the
+                                -- semi-affine product) | "offset" (only the offset is dynamic: the composed map has a symbol)
   A : List (List Int)
   b : List Int
   strides : Option (List Int)
@@ -93,8 +98,31 @@ structure OpArgs where
   el : Nat
   k : Nat
 
+def sstrideOfJson (j : Json) : Except String Tsl.SStride := do
+  match (← arr j).toList with
+  | [s, b] => return ⟨← nat s, ← nat b⟩
+  | _ => throw "bad stride"
+
+def tslErrName : Tsl.Err → String
+  | .valueError => "ValueError" | .assertionError => "AssertionError" | .notImplemented => "NotImplementedError"
+  | .parseError => "ParseError" | .indexError => "IndexError" | .typeError => "TypeError"
+  | .divZero => "ZeroDivisionError" | .negative => "OUTSIDE-MODEL"
+
 def opOfJson (j : Json) : Except String OpArgs := do
-  return { L := ← optOf aexprOfJson (← field j "L"), A := ← listOf (listOf int) (← field j "A"),
+  let tsl ← match j.getObjVal? "tsl" with
+    | .ok t => optOf (listOf (listOf sstrideOfJson)) t
+    | .error _ => pure none
+  let strideOfJson (x : Json) : Except String Tsl.Stride := do
+    match (← arr x).toList with
+    | [st, b] => return ⟨← optOf nat st, ← optOf nat b⟩
+    | _ => throw "bad stride"
+  let dynTsl ← match j.getObjVal? "dynTsl" with
+    | .ok t => optOf (fun t => do return (⟨← listOf (listOf strideOfJson) t, some 0⟩ : Tsl.Layout)) t
+    | .error _ => pure none
+  let dynStrided ← match j.getObjVal? "dynStrided" with
+    | .ok t => str t
+    | .error _ => pure ""
+  return { L := ← optOf aexprOfJson (← field j "L"), tsl := tsl, dynTsl := dynTsl, dynStrided := dynStrided, A := ← listOf (listOf int) (← field j "A"),
            b := ← listOf int (← field j "b"), strides := ← optOf (listOf int) (← field j "strides"),
            relevant := ← listOf bool (← field j "relevant"), dims := ← listOf nat (← field j "dims"),
            bc := ← bool (← field j "bc"), el := ← nat (← field j "el"), k := ← nat (← field j "k") }
@@ -123,6 +151,41 @@ def runH : Handler := fun j => do
     | [t, s] => pure ((← nat t), (← nat s))
     | _ => throw "bad streamer") (← field j "streamers")
   let n := bounds.length
+  -- operands with a TSL layout: the byte layout expression comes from the model of get_affine_map (C10) * element size
+  for o in ops do
+    let raised (e : String) := Json.mkObj [("strides", Json.null), ("resolveRaised", Json.str e), ("conv", Json.null)]
+    match o.tsl with
+    | some lay => match tslBytes lay o.el with
+      | .error e => return raised (tslErrName e)
+      | .ok _ => pure ()
+    | none => pure ()
+    match o.dynTsl with
+    | some l => match l.affineMap with      -- `if self.data.is_dynamic(): raise NotImplementedError`
+      | .error e => return raised (tslErrName e)
+      | .ok _ => throw "a layout sent as dynamic has no dynamic entry"
+    | none => pure ()
+    -- `if access_mem_map.num_symbols != 0: raise RuntimeError("Access patterns with symbols are not supported yet.")`
+    if o.dynStrided == "stride" then return raised "NotImplementedError"
+    if o.dynStrided == "offset" then return raised "RuntimeError"
+  let ops := ops.map fun o => match o.tsl with
+    | some lay => match tslBytes lay o.el with
+      | .ok L => { o with L := some L }
+      | .error _ => o
+    | none => o
+  -- the alignment clause of `tsl_linear_of_aligned`, with the computed digit assignment
+  let aligned := jList (fun (o : OpArgs) => match o.tsl with
+    | some lay =>
+      let D := autoDigits lay o.A
+      if alignedB lay o.A o.b bounds D then
+        Json.mkObj [("aligned", Json.bool true), ("how", Json.str "tiles"),
+          ("strides", jList jInt (alignedStrides lay o.el D n))]
+      else
+        let clay := lay.map squash
+        let Dc := autoDigits clay o.A
+        Json.mkObj [("aligned", Json.bool (alignedCanonB lay o.A o.b bounds Dc)), ("how", Json.str "canonical"),
+          ("strides", jList jInt (alignedStrides clay o.el Dc n))]
+    | none => Json.null) ops
+  let dataIdx := jList jNat ((List.range ops.length).map fun i => dataIndex v ops.length i)
   let resolved ← ops.mapM fun o => match o.L, o.strides with
     | some L, _ => match resolve L o.A o.b n with
       | some s => pure s
@@ -130,11 +193,12 @@ def runH : Handler := fun j => do
     | none, some s => pure s
     | none, none => throw "operand without layout and without strides"
   let jStrides := if ops.all (fun o => o.L.isSome) then jList (jList jInt) resolved else Json.null
-  if ronly then return Json.mkObj [("strides", jStrides), ("conv", Json.null)]
+  if ronly then return Json.mkObj [("strides", jStrides), ("aligned", aligned), ("conv", Json.null)]
   for (o, s) in ops.zip resolved do
     if s.length ≠ n ∨ o.relevant.length ≠ n then throw "strides / bounds / relevant differ in length: outside the model"
   match convAll bounds (ops.zip resolved) with
-  | .error e => return Json.mkObj [("strides", jStrides), ("conv", Json.mkObj [("raised", Json.str (errName e))])]
+  | .error e => return Json.mkObj [("strides", jStrides), ("aligned", aligned),
+      ("conv", Json.mkObj [("raised", Json.str (errName e))])]
   | .ok rs =>
     let pats := rs.map fun x => x.1.pat
     let flags := jList (fun (x : Res × List Stride.Loop × OpArgs) => Json.mkObj [("warned", Json.bool x.1.warned),
@@ -144,14 +208,34 @@ def runH : Handler := fun j => do
     let sched := jList (fun (x : Res × List Stride.Loop × OpArgs) =>
       if small (schedLoops x.2.2.el x.2.1) then streamToJson (schedStream x.2.2.el x.2.1 x.2.2.k) else Json.null) rs
     match customize v pats with
-    | .error e => return Json.mkObj [("strides", jStrides),
+    | .error e => return Json.mkObj [("strides", jStrides), ("aligned", aligned),
         ("conv", Json.mkObj [("handed", jList patToJson pats), ("raised", Json.str (errName e))])]
-    | .ok c => return Json.mkObj [("strides", jStrides), ("conv", Json.mkObj [("handed", jList patToJson pats),
+    | .ok c => return Json.mkObj [("strides", jStrides), ("aligned", aligned), ("dataIndex", dataIdx),
+        ("conv", Json.mkObj [("handed", jList patToJson pats),
         ("custom", jList patToJson c), ("final", jList patToJson (c.map Pattern.canonicalize)),
         ("verified", Json.bool (verifyRegion streamers (c.map Pattern.canonicalize))), ("flags", flags),
         ("hw", hw), ("sched", sched)])]
 
+/-- args: {"acc": "gemmx" | "xdma_add", "nops": nat, "outBits": nat} -> {"ok": [nat]} | {"raised": name} : `get_streamers` -/
+def streamersH : Handler := fun j => do
+  let acc ← str (← field j "acc")
+  let nops ← nat (← field j "nops")
+  let bits ← nat (← field j "outBits")
+  if acc == "xdma_add" then return Json.mkObj [("ok", jList jNat xdmaAddStreamers)]
+  match gemmxStreamers nops bits with
+  | .ok l => return Json.mkObj [("ok", jList jNat l)]
+  | .error e => return Json.mkObj [("raised", Json.str (errName e))]
+
+/-- args: {"streamers": [[temporal_dim, spatial_dim]], "pats": [pattern]} -> bool : `StreamingRegionOp.verify_` -/
+def verifyH : Handler := fun j => do
+  let streamers ← listOf (fun x => do
+    match (← arr x).toList with
+    | [t, s] => pure ((← nat t), (← nat s))
+    | _ => throw "bad streamer") (← field j "streamers")
+  let ps ← listOf patOfJson (← field j "pats")
+  return Json.bool (verifyRegion streamers ps)
+
 def handlers : List (String × Handler) :=
-  [("c02.resolve", resolveH), ("c02.tosp", tospH), ("c02.final", finalH), ("c02.hw", hwH), ("c02.run", runH)]
+  [("c02.resolve", resolveH), ("c02.tosp", tospH), ("c02.final", finalH), ("c02.hw", hwH), ("c02.run", runH), ("c02.streamers", streamersH), ("c02.verify", verifyH)]
 
 end SnaxVerif.Drv.C02
